@@ -195,16 +195,18 @@ def execute(case, consumer_modes=None, faults=None, md_plan=None, finish=True, h
                 hits = run.drain_bound_hit
                 drain()
                 pump()
-                if run.drain_bound_hit > hits:
-                    # a map_async whose worker died after an injected fault busy-waits for ever
+                # a map_async whose worker died after an injected fault busy-waits for ever:
+                # give up once nothing has been delivered for a while although the loop spins
+                spinning = run.drain_bound_hit > hits
+                if spinning:
                     spin += 1
-                    if spin > 12:
+                    if spin > 400:
                         break
                 if fresh():
                     quiet_since = loop.vclock.now
                 alldone = all(r["fut"] is None or r["fut"].done() for r in run.emits) and \
                     not any(p["queue"] for p in producers.values())
-                if alldone and loop.vclock.now - quiet_since > 2 * maxi + 1:
+                if (alldone or spinning) and loop.vclock.now - quiet_since > 2 * maxi + 1:
                     break
                 nt = loop.next_timer()
                 if nt is None:
